@@ -795,7 +795,7 @@ func (ex *Exec) rangeIndexInv(fr *Frame, st *State, li *loopInfo) []string {
 			continue
 		}
 		x, n := sc(cur).T, sc(nv).T
-		out = append(out, and(app("bvsle", bvInt(-1, 64), x), or(app("bvsle", x, n), eq(x, bvInt(-1, 64)))))
+		out = append(out, and(app("bvsle", bvInt(-1, 64), x), or(app("bvslt", x, n), eq(x, bvInt(-1, 64)))))
 	}
 	return out
 }
@@ -808,6 +808,8 @@ func (ex *Exec) checkInvariants(fr *Frame, st *State, li *loopInfo, kind string)
 	if lc == nil {
 		return
 	}
+	ex.invLoopBlocks = li.blocks
+	defer func() { ex.invLoopBlocks = nil }()
 	for i, inv := range lc.Invariants {
 		t := ex.evalBool(fr, st, fr.entry, nil, inv.Expr)
 		o := ex.oblige(st, fr, fmt.Sprintf("%s(L%d)", kind, li.ordinal), token.NoPos, inv.Text, t)
@@ -826,6 +828,8 @@ func (ex *Exec) assumeInvariants(fr *Frame, st *State, li *loopInfo) {
 	if lc == nil {
 		return
 	}
+	ex.invLoopBlocks = li.blocks
+	defer func() { ex.invLoopBlocks = nil }()
 	for _, inv := range lc.Invariants {
 		ex.assume(st, ex.evalBool(fr, st, fr.entry, nil, inv.Expr))
 	}
